@@ -305,6 +305,11 @@ def _init_bc(A: spmatrix,
     D = _flatten_dofs(D)
     I = _flatten_dofs(I)
 
+    # an index listed twice (e.g. hstack of overlapping boundaries) must not
+    # be counted twice
+    if D is not None:
+        D = np.unique(D)
+
     if I is None and D is None:
         raise Exception("Either I or D must be given!")
     elif I is None and D is not None:
